@@ -169,7 +169,7 @@ func runC03(c *core.Ctx) {
 	// ---- keys absent / empty / duplicated for map and URL inputs
 	k := 0
 	for _, text := range []string{"required", "required|m_req", "required,to=1~3|m_r", "to=1~3|m_r,required|必_req", "phone|m_r", "to=2~3"} {
-		for _, shape := range []string{"absent", "empty", "nonempty", "dup-empty-first", "dup-empty-last", "absent-among-others", "no-query"} {
+		for _, shape := range []string{"absent", "empty", "nonempty", "dup-empty-first", "dup-empty-last", "absent-among-others", "no-query", "bare-after-value", "bare-only"} {
 			for _, keyName := range []string{"a", "ids[]", "姓名", "first name", "a+b"} {
 				k++
 				if !c.Mine(k) {
@@ -337,6 +337,10 @@ func c03Absent(res *core.Result, text, shape, keyName string) {
 		params = []kv{{"b", "1"}, {"c", ""}, {"d", "a"}}
 	case "no-query":
 		params = nil
+	case "bare-after-value": // "?b=abcd&<key>": the parameter is present without '=' (an empty entry)
+		params = []kv{{"b", "abcd"}, {keyName, "\x00bare"}}
+	case "bare-only":
+		params = []kv{{keyName, "\x00bare"}}
 	}
 	res.Count("absent_key_cases")
 	// URL
@@ -344,6 +348,11 @@ func c03Absent(res *core.Result, text, shape, keyName string) {
 		q := []string{}
 		entries := []ref.FlatEntry{}
 		for _, p := range params {
+			if p.v == "\x00bare" {
+				q = append(q, url.QueryEscape(p.k))
+				entries = append(entries, ref.FlatEntry{Key: p.k, Val: reflect.ValueOf("")})
+				continue
+			}
 			q = append(q, url.QueryEscape(p.k)+"="+url.QueryEscape(p.v))
 			entries = append(entries, ref.FlatEntry{Key: p.k, Val: reflect.ValueOf(p.v)})
 		}
@@ -361,7 +370,7 @@ func c03Absent(res *core.Result, text, shape, keyName string) {
 		}
 	}
 	// map (no duplicates in a map)
-	if !strings.HasPrefix(shape, "dup") && shape != "no-query" {
+	if !strings.HasPrefix(shape, "dup") && shape != "no-query" && !strings.HasPrefix(shape, "bare") {
 		m := map[string]string{}
 		entries := []ref.FlatEntry{}
 		for _, p := range params {
